@@ -119,6 +119,33 @@ def outputs_of(w, net, account, tag=""):
         add(list(addrs.values()), "addresses", 5)
         add({k: v for k, v in w.node_extended_keys(node).items() if k != "path"}, "node_extended_keys", 2)
         add([node.extended_public_key(), node.extended_private_key()], "node-default-version-keys", 2)
+    # the remaining producers of network-tagged text: address generators (default and explicit address function), row groups,
+    # key objects reached through a node (WIF / address with the node's own network flag)
+    def more():
+        out = {}
+        n0 = w.by_path("m/84'/%d'/%d'/0" % (coin, account))
+        g = w.address_generator(n0)
+        out["address_generator(default)"] = [next(g)[1], g.send(2)[1], next(g)[1]]
+        g2 = w.address_generator(n0, w.p2pkh_address)
+        out["address_generator(p2pkh)"] = [next(g2)[1], next(g2)[1]]
+        g3 = w.address_generator(node=n0, addr_fnc=w.p2sh_p2wpkh_address)
+        out["address_generator(p2sh_p2wpkh)"] = [next(g3)[1]]
+        kids_ = n0.generate_children((0, 2))
+        out["group(p2wpkh)"] = [r[1] for r in w.group(kids_, w.p2wpkh_address)] + [r[-1] for r in w.group(kids_, w.p2wpkh_address)]
+        out["bip44_group"] = [r[1] for r in w.bip44_group(kids_)] + [r[-1] for r in w.bip44_group(kids_)]
+        out["bip49_group"] = [r[1] for r in w.bip49_group(kids_)]
+        out["bip84_group"] = [r[1] for r in w.bip84_group(kids_)]
+        k0 = kids_[0]
+        out["node.private_key.wif(testnet=node.testnet)"] = [k0.private_key.wif(testnet=k0.testnet)]
+        out["node.public_key.address(testnet=node.testnet)"] = [k0.public_key.address(testnet=k0.testnet), k0.public_key.address(testnet=k0.testnet, addr_type="p2wpkh")]
+        out["child-of-child keys"] = [k0.ckd(1).extended_public_key(), k0.ckd(H + 1).extended_private_key()]
+        return out
+    st, extra = attempt(more)
+    if st != "ok":
+        viols.append(V(P + ":generators-and-groups:raised", "%s" % extra))
+    else:
+        for what, vals in extra.items():
+            add(vals, what, len(vals))
     st, wj = attempt(w.wasabi_json)
     if st == "ok":
         add(json.loads(wj)["ExtPubKey"], "wasabi_json", 1)
